@@ -308,6 +308,40 @@ class Episode:
 
     # -- one step -------------------------------------------------------------------------------
     def run(self):
+        self._run()
+        if self.ended == "reject":
+            self.after_refusal()
+
+    def after_refusal(self):
+        """One more, empty, call after a refused round.  Whatever part of the refused round was applied (that is
+        unspecified), an empty round cannot create a container, a success still means that every operator completed, and
+        every pool still accounts for its whole capacity."""
+        out = self.out
+        known = [{c.container_id for c in list(p.active_containers) + list(p.suspending_containers) + list(p.suspended_containers)}
+                 for p in self.ex.pools]
+        try:
+            results = self.ex.run_one_tick([], [])
+        except Exception:
+            out.label("call_after_refusal_raised")
+            return
+        out.label("call_after_refusal")
+        self.tick_no += 1
+        for i, p in enumerate(self.ex.pools):
+            now = {c.container_id for c in list(p.active_containers) + list(p.suspending_containers) + list(p.suspended_containers)}
+            new = sorted(now - known[i])
+            if new:
+                self.problem("C09:container-without-assignment", f"pool {i}: containers {new} appeared in a round that carried no command (the round before was refused)")
+            held_cpu = sum(c.assignment.cpu for c in list(p.active_containers) + list(p.suspending_containers))
+            held_ram = sum(c.assignment.ram for c in list(p.active_containers) + list(p.suspending_containers))
+            if p.avail_cpu_pool + held_cpu != self.spec["cpus"]:
+                self.problem("C03:cpu-not-conserved", f"pool {i} after a refused round and one empty round: free {p.avail_cpu_pool} + held {held_cpu} != capacity {self.spec['cpus']}")
+            if abs(p.avail_ram_pool + held_ram - self.spec["ram"]) > max(1e-6, 1e-9 * self.spec["ram"]):
+                self.problem("C03:ram-not-conserved", f"pool {i} after a refused round and one empty round: free {p.avail_ram_pool} + held {held_ram} != capacity {self.spec['ram']}")
+        for r in results:
+            if r.error is None and any(o.state().value != "completed" for o in r.ops):
+                self.problem("C09:success-with-unfinished-operators", f"{r.container_id} reported success, its operators are {[o.state().value for o in r.ops]}")
+
+    def _run(self):
         for step in self.spec["steps"]:
             if step.get("other_executor"):
                 # another, unrelated executor is created in the same process while this one has live containers
